@@ -367,3 +367,129 @@ pub fn run_snapshot_cut<S: MdkStorageProvider + Sync>(s: &S, u: &Universe, versi
     }
     report
 }
+
+/// Claim workload: check-then-act atomicity of `save_group` across its two indexes.
+/// (A) `threads` groups, one per thread; in every round all threads try to move their own group to
+/// the SAME fresh nostr group id at once. In any sequential order exactly one call succeeds; at the
+/// quiescent point after the round the id resolves to the winner, every loser still resolves under
+/// its previous id, and the winner's previous id resolves to nothing.
+/// (B) two threads move the SAME group to two different fresh ids at once: afterwards the record
+/// carries one of them, that one resolves, the other one and the previous one do not.
+pub fn run_claims<S: MdkStorageProvider + Sync>(s: &S, u: &Universe, threads: usize, rounds: usize, seed: u64) -> StressReport {
+    use std::sync::{Barrier, Mutex};
+    let mut report = StressReport::default();
+    let template = GroupSpec { g: 0, nid: 0, nid_of: None, name: 0, desc: 0, admins: 1, epoch: 1, state: 0, img: 0, last: None, su: 1 }.build(u);
+    let gid_of = |t: usize| mdk_storage_traits::GroupId::from_slice(&[0xC0u8, t as u8, (seed & 0xff) as u8, 7, 7, 7, 7, 7]);
+    let nid = |a: u64, b: u64| -> [u8; 32] {
+        let mut x = [0u8; 32];
+        x[..8].copy_from_slice(&a.to_le_bytes());
+        x[8..16].copy_from_slice(&b.to_le_bytes());
+        x[16..24].copy_from_slice(&seed.to_le_bytes());
+        x
+    };
+    let mk = |t: usize, id: [u8; 32]| {
+        let mut g = template.clone();
+        g.mls_group_id = gid_of(t);
+        g.nostr_group_id = id;
+        g
+    };
+    // own[t] = nostr id currently held by group t
+    let own: Vec<Mutex<[u8; 32]>> = (0..threads).map(|t| Mutex::new(nid(1000 + t as u64, 0))).collect();
+    for t in 0..threads {
+        if s.save_group(mk(t, *own[t].lock().unwrap())).is_err() {
+            report.violations.push(("claims-init-failed".into(), "initial save_group failed".into()));
+            return report;
+        }
+    }
+    let barrier = Barrier::new(threads);
+    let oks: Vec<AtomicU64> = (0..rounds).map(|_| AtomicU64::new(0)).collect();
+    let winner: Vec<AtomicU64> = (0..rounds).map(|_| AtomicU64::new(u64::MAX)).collect();
+    let viol: Mutex<Vec<(String, String)>> = Mutex::new(vec![]);
+    std::thread::scope(|sc| {
+        for t in 0..threads {
+            let (barrier, oks, winner, own, viol) = (&barrier, &oks, &winner, &own, &viol);
+            sc.spawn(move || {
+                for r in 0..rounds {
+                    let shared = nid(r as u64, 1);
+                    barrier.wait();
+                    let res = s.save_group(mk(t, shared));
+                    if res.is_ok() {
+                        oks[r].fetch_add(1, Ordering::SeqCst);
+                        winner[r].store(t as u64, Ordering::SeqCst);
+                    }
+                    let lead = barrier.wait().is_leader();
+                    if lead {
+                        // quiescent: nobody calls the store until the next barrier
+                        let n_ok = oks[r].load(Ordering::SeqCst);
+                        let mut v = viol.lock().unwrap();
+                        if n_ok != 1 {
+                            v.push(("claims-same-nostr-id-granted-to-several-groups".into(), format!("round {r}: {n_ok} of {threads} concurrent save_group calls claiming one fresh nostr group id for different groups succeeded (any sequential order grants it once)")));
+                        }
+                        let w = winner[r].load(Ordering::SeqCst) as usize;
+                        if n_ok >= 1 && w < threads {
+                            let by_nostr = s.find_group_by_nostr_group_id(&shared).ok().flatten().map(|g| g.mls_group_id);
+                            let holders: Vec<usize> = (0..threads).filter(|x| s.find_group_by_mls_group_id(&gid_of(*x)).ok().flatten().map(|g| g.nostr_group_id == shared).unwrap_or(false)).collect();
+                            if holders.len() != 1 {
+                                v.push(("claims-two-records-carry-one-nostr-id".into(), format!("round {r}: groups {holders:?} all carry the contested nostr group id")));
+                            } else if by_nostr != Some(gid_of(holders[0])) {
+                                v.push(("claims-indexes-disagree".into(), format!("round {r}: group {} carries the contested id but the lookup by that id returns {:?}", holders[0], by_nostr.map(|g| hex::encode(g.as_slice())))));
+                            }
+                            for x in 0..threads {
+                                let prev = *own[x].lock().unwrap();
+                                let r2 = s.find_group_by_nostr_group_id(&prev).ok().flatten().map(|g| g.mls_group_id);
+                                if holders.contains(&x) {
+                                    if r2.is_some() {
+                                        v.push(("claims-stale-index-entry".into(), format!("round {r}: the id group {x} held before it won still resolves")));
+                                    }
+                                } else if r2 != Some(gid_of(x)) {
+                                    v.push(("claims-loser-lost-its-id".into(), format!("round {r}: group {x} lost the race but its own id resolves to {:?}", r2.map(|g| hex::encode(g.as_slice())))));
+                                }
+                            }
+                            if holders.len() == 1 {
+                                *own[holders[0]].lock().unwrap() = shared;
+                            }
+                        }
+                    }
+                    barrier.wait();
+                }
+            });
+        }
+    });
+    report.violations.extend(viol.into_inner().unwrap());
+    report.histories_ops += (threads * rounds) as u64;
+    // (B) one group, two threads, two fresh ids
+    let gb = threads + 1;
+    let mut cur = nid(5000, 0);
+    if s.save_group(mk(gb, cur)).is_ok() {
+        for r in 0..rounds.min(30) {
+            let (a, b) = (nid(r as u64, 2), nid(r as u64, 3));
+            let bar = Barrier::new(2);
+            std::thread::scope(|sc| {
+                for id in [a, b] {
+                    let bar = &bar;
+                    sc.spawn(move || {
+                        bar.wait();
+                        let _ = s.save_group(mk(gb, id));
+                    });
+                }
+            });
+            report.histories_ops += 2;
+            let rec = s.find_group_by_mls_group_id(&gid_of(gb)).ok().flatten().map(|g| g.nostr_group_id);
+            let Some(rec) = rec else {
+                report.violations.push(("claims-group-vanished".into(), format!("(B) round {r}: the group is gone after two concurrent saves")));
+                break;
+            };
+            let res = |id: &[u8; 32]| s.find_group_by_nostr_group_id(id).ok().flatten().is_some();
+            if rec != a && rec != b {
+                report.violations.push(("claims-record-has-neither-id".into(), format!("(B) round {r}")));
+            } else {
+                let other = if rec == a { b } else { a };
+                if !res(&rec) || res(&other) || res(&cur) {
+                    report.violations.push(("claims-orphaned-index-entry".into(), format!("(B) round {r}: record carries {}, resolves: carried={} other={} previous={} (only the carried id may resolve)", hex::encode(&rec[..4]), res(&rec), res(&other), res(&cur))));
+                }
+            }
+            cur = rec;
+        }
+    }
+    report
+}
